@@ -355,7 +355,7 @@ func c18() []*Ob {
 				owners := map[string]bool{"(*cache.Cleaner).AddBucket": true, "(*cache.Cleaner).ReleaseBuckets": true}
 				for _, fn := range c.P.Funcs {
 					for _, st := range InstrsIn(fn, FieldStore("cache.Cleaner", "buckets")) {
-						if owners[FuncName(fn)] {
+						if _, ok := c.P.OwnedBy(fn, func(n string) bool { return owners[n] }); ok {
 							c.Site(st.Pos(), "%s stores Cleaner.buckets (owner)", FuncName(fn))
 						} else {
 							c.Violation("own:Cleaner.buckets:"+FuncName(fn), st.Pos(), "%s changes the cleaner's bucket list", FuncName(fn))
